@@ -58,3 +58,137 @@ def axisless_squeeze_on_return(fn):
                         and len(n.args) == 1 and not any(k.arg == "axis" for k in n.keywords):
                     out.append(n)
     return out
+
+
+# J4  a stateful repository object created in a parameter default is shared by every call that relies on the default
+def stateful_class(prog, ci, ctor=("__init__",)):
+    """True if some non-constructor method of the class (or a base) assigns or updates an attribute of self."""
+    for c in prog.mro(ci):
+        for mname, fn in c.methods.items():
+            if mname in ctor or not fn.args.args:
+                continue
+            sn = fn.args.args[0].arg
+            for n in ast.walk(fn):
+                tgts = n.targets if isinstance(n, ast.Assign) else [n.target] if isinstance(n, (ast.AugAssign, ast.AnnAssign)) else []
+                for t in tgts:
+                    for x in ast.walk(t):
+                        if isinstance(x, ast.Attribute) and isinstance(x.value, ast.Name) and x.value.id == sn and isinstance(x.ctx, ast.Store):
+                            return mname
+                        if isinstance(x, ast.Subscript) and isinstance(x.ctx, ast.Store):
+                            b = x
+                            while isinstance(b, ast.Subscript):
+                                b = b.value
+                            if isinstance(b, ast.Attribute) and isinstance(b.value, ast.Name) and b.value.id == sn:
+                                return mname
+    return None
+
+
+def shared_default_instances(prog, mi, fn):
+    """[(parameter, class name, mutating method)] for defaults that construct a stateful repository object."""
+    out = []
+    args = fn.args.args
+    defaults = [None] * (len(args) - len(fn.args.defaults)) + list(fn.args.defaults)
+    pairs = list(zip(args, defaults)) + list(zip(fn.args.kwonlyargs, fn.args.kw_defaults))
+    for a, d in pairs:
+        if not isinstance(d, ast.Call):
+            continue
+        f = d.func
+        name = f.id if isinstance(f, ast.Name) else f.attr if isinstance(f, ast.Attribute) else None
+        if name and prog.has_cls(name):
+            m = stateful_class(prog, prog.cls(name))
+            if m:
+                out.append((a.arg, name, m))
+    return out
+
+
+# J5  exp() of a quantity that can be large and positive must only be used where it saturates
+def _nonneg(e, res=None):
+    """Syntactic proof that e >= 0 (res: optional map  self-attribute name -> defining expression)."""
+    if isinstance(e, ast.Constant):
+        return isinstance(e.value, (int, float)) and e.value >= 0
+    if isinstance(e, ast.UnaryOp) and isinstance(e.op, ast.USub):
+        return _nonpos(e.operand, res)
+    if isinstance(e, ast.BinOp):
+        if isinstance(e.op, ast.Pow):
+            return (isinstance(e.right, ast.Constant) and isinstance(e.right.value, int) and e.right.value % 2 == 0) or _nonneg(e.left, res)
+        if isinstance(e.op, (ast.Mult, ast.Div)):
+            return (_nonneg(e.left, res) and _nonneg(e.right, res)) or (_nonpos(e.left, res) and _nonpos(e.right, res))
+        if isinstance(e.op, ast.Add):
+            return _nonneg(e.left, res) and _nonneg(e.right, res)
+    if isinstance(e, ast.Call):
+        f = ast.unparse(e.func)
+        if f in ("abs", "fabs", "absolute", "square", "exp", "sqrt"):
+            return True
+        if f in ("log", "log1p") and e.args:
+            a = e.args[0]
+            if f == "log1p":
+                return _nonneg(a, res)
+            # log(1 + nonneg) >= 0
+            if isinstance(a, ast.BinOp) and isinstance(a.op, ast.Add):
+                ops = [a.left, a.right]
+                ones = [o for o in ops if isinstance(o, ast.Constant) and isinstance(o.value, (int, float)) and o.value >= 1]
+                rest = [o for o in ops if o not in ones]
+                return len(ones) >= 1 and all(_nonneg(o, res) for o in rest)
+            return False
+        if isinstance(e.func, ast.Attribute) and e.func.attr in ("sum", "mean", "max", "min"):
+            return _nonneg(e.func.value, res)
+        if f == "sum" and e.args:
+            return _nonneg(e.args[0], res)
+    if isinstance(e, ast.Subscript):
+        return _nonneg(e.value, res)
+    if isinstance(e, ast.Attribute) and res is not None and ast.unparse(e.value) == "self" and e.attr in res:
+        return all(_nonneg(v, res) for v in res[e.attr])
+    return False
+
+
+def _nonpos(e, res=None):
+    if isinstance(e, ast.UnaryOp) and isinstance(e.op, ast.USub):
+        return _nonneg(e.operand, res)
+    if isinstance(e, ast.Constant):
+        return isinstance(e.value, (int, float)) and e.value <= 0
+    if isinstance(e, ast.BinOp) and isinstance(e.op, (ast.Mult, ast.Div)):
+        return (_nonpos(e.left, res) and _nonneg(e.right, res)) or (_nonneg(e.left, res) and _nonpos(e.right, res))
+    if isinstance(e, ast.BinOp) and isinstance(e.op, ast.Add):
+        return _nonpos(e.left, res) and _nonpos(e.right, res)
+    if isinstance(e, ast.Call) and isinstance(e.func, ast.Attribute) and e.func.attr in ("sum", "mean", "max", "min"):
+        return _nonpos(e.func.value, res)
+    if isinstance(e, ast.Subscript):
+        return _nonpos(e.value, res)
+    if isinstance(e, ast.Attribute) and res is not None and ast.unparse(e.value) == "self" and e.attr in res:
+        return all(_nonpos(v, res) for v in res[e.attr])
+    return False
+
+
+def unsaturated_exp(term, bounded_names=(), res=None):
+    """exp(arg) nodes of a resolved term whose argument depends on something other than `bounded_names`, is not provably
+    non-positive, and whose value does not pass through a denominator (or log1p / logaddexp) on the way out: such a factor
+    overflows to inf for admissible inputs and turns `inf * 0` into nan."""
+    parents = {}
+    for n in ast.walk(term):
+        for c in ast.iter_child_nodes(n):
+            parents[id(c)] = n
+    out = []
+    for n in ast.walk(term):
+        if isinstance(n, ast.Call) and ast.unparse(n.func) == "exp" and len(n.args) == 1:
+            arg = n.args[0]
+            free = {x.id for x in ast.walk(arg) if isinstance(x, ast.Name)} - set(bounded_names)
+            attrs = [x for x in ast.walk(arg) if isinstance(x, ast.Attribute)]
+            if not free and not attrs:
+                continue                      # a function of (bounded) hyper-parameters only
+            if _nonpos(arg, res):
+                continue
+            cur, sat = n, False
+            while id(cur) in parents:
+                p = parents[id(cur)]
+                if isinstance(p, ast.BinOp) and isinstance(p.op, ast.Div) and p.right is cur:
+                    sat = True
+                    break
+                if isinstance(p, ast.Call) and ast.unparse(p.func) in ("log1p", "logaddexp", "log", "tanh", "arctan"):
+                    sat = True
+                    break
+                if isinstance(p, ast.Call) and p.func is not cur and ast.unparse(p.func) not in ("array", "float"):
+                    break                     # passed to another function: unknown
+                cur = p
+            if not sat:
+                out.append(n)
+    return out
